@@ -3,6 +3,21 @@
 import json, os, glob
 ROOT = os.path.dirname(os.path.dirname(os.path.abspath(__file__)))
 NOTES = {
+ "C01-f": "missed at first: every impl was covered, but the container impls look at the next byte before handing over to the element's impl and no container had an element type whose encoding can start with that byte (`Token::Break` = 0xff inside a `Vec`); the registry now has a container x element matrix of 157 composite types (Vec, VecDeque, LinkedList, [T;2], Box, (T,u8,T), BTreeMap<u16,T>, Result, Bound, Option over 16 element types with distinctive first bytes)",
+ "C03-f": "missed at first by C03 (C13 reported it): C03 only observed bytes collected by a Vec; every registry value is now also encoded through the std::io adapter into a sink that takes the bytes in scripted short writes, with Interrupted calls and a native write_vectored",
+ "C04-f": "missed at first by C04 (C14's frame-extent reported it): typed decoding was only driven on plain buffers; new part C04F in g_io offers frames holding a strict prefix of an encoding to Reader / AsyncReader (new / with_buffer) after longer frames and demands an end-of-input decode error",
+ "C05-f": "missed at first: C05 only drove the core accessors; new part C05S in g_serde drives every integer item (sign x five head widths, argument not necessarily minimal for the width) through the serde bridge's integer and char targets",
+ "C06-f": "missed at first: chunk lengths in generated items were small, so no head argument ever contained 0xff; new `special-lengths` sub-check (chunk / string / array / map lengths 255, 511, 767, 0xff00.., minimal and wider heads such as 79 00 ff, payloads full of 0xff)",
+ "C07-f": "missed at first: the harness's three nil-capable codecs all encoded their nil value as null (one byte), so 'a nil is one byte' was true of the whole population; `NilU32`'s nil is now a 5-byte sentinel and `NilStr`'s nil the empty text",
+ "C08-f": "missed at first: no definition had reference-typed fields (the population derives Decode as well); new `reference-fields` sub-check: encode-only definitions over &T, &mut T, &&T, &&mut T, &mut &T against twins that own the values",
+ "C09-f": "missed at first: a transparent newtype around `#[b] Cow<[u8]>` with `minicbor::bytes` had probability ~1/700 per definition and did not occur; every second transparent newtype now wraps a string / byte-string type",
+ "C11-f": "missed at first: payloads never exceeded a few hundred bytes; new `long-payloads` sub-check (60-200 KB text with 1-4 byte characters in a pseudo-random mix around 2^16 / 2^17 boundaries, definite and chunked)",
+ "C12-f": "missed at first by C12 (C20 would report the configuration difference): the float checks ran in one feature configuration; new part C12N judges every float entry point in all six configurations against absolute expectations",
+ "C13-f": "missed at first: the io sink only made short writes; it is now scripted (short writes, Interrupted - also right after a partial write -, native write_vectored)",
+ "C14-f": "missed at first: the writer's sinks used std's default write_vectored; the scripted sink now has a native one that takes bytes across the prefix/payload boundary",
+ "C15-f": "missed at first: the executor only considered dropping a future at Pendings its transport had caused, and walks rarely made 128 deliveries within one future; a Pending the transport did not cause is now a drop point (first three always taken), and long payloads have position-dependent content",
+ "C16-f": "missed at first: idle syncs were only issued after a write; walks and DFS lists may now start with a sync() on a writer constructed around a used buffer",
+ "C18-f": "missed at first by C18 (C03's reference encoder reported it): the shared model had tuples of arity 1-4, 6 and 12; it now has every arity 1-16",
  "C01-a": "missed by the first version of the registry (tuples of arity 1-4, 12 and 16 only); the registry now holds every arity 1..=16 with pairwise distinguishable neighbouring fields",
  "C02-a": "the corrupted heap aborts the child process; the supervisor translates the fatal signal into a reproduced violation (added after mutant c02-arrayvec-no-forget showed the abort was reported as inconclusive)",
  "C14-a": "missed before the `writer-histories` sub-check existed (the frame checks only used writers that never failed); added: histories of writes on one Writer with failing encodes, over-long values and a failing sink",
